@@ -20,14 +20,17 @@
 #define VERIF_MAXREC 4
 #endif
 static const char* kLog = ".ninja_deps";
-// statements deciding which entries are live: o1, out, out4 use deps = gcc; 'dead' does not (built through the State API: the parser is not under test here)
+// statements deciding which entries are live: o1, out4 use deps = gcc through their rule, out through a statement-level binding; 'dead' does not (built through the State API: the parser is not under test here)
 static State* new_state() {
   State* st = new State; std::string err;
   Rule* cc = new Rule("cc"); EvalString c1; c1.AddText("cc"); cc->AddBinding("command", c1); EvalString d1; d1.AddText("gcc"); cc->AddBinding("deps", d1);
   Rule* plain = new Rule("plain"); EvalString c2; c2.AddText("p"); plain->AddBinding("command", c2);
   st->bindings_.AddRule(std::unique_ptr<const Rule>(cc)); st->bindings_.AddRule(std::unique_ptr<const Rule>(plain));
   const char* outs[] = { "o1", "out", "out4", "dead" };
-  for (int i = 0; i < 4; i++) { Edge* e = st->AddEdge(i < 3 ? cc : plain); st->AddIn(e, "s", 0); st->AddOut(e, outs[i], 0, &err); }
+  // 'out' gets deps = gcc from a binding of its own build statement (its rule declares none): where the variable is bound must not matter for liveness
+  Rule* cc2 = new Rule("cc2"); EvalString c3; c3.AddText("cc2"); cc2->AddBinding("command", c3); st->bindings_.AddRule(std::unique_ptr<const Rule>(cc2));
+  for (int i = 0; i < 4; i++) { Edge* e = st->AddEdge(i == 1 ? cc2 : i < 3 ? cc : plain); st->AddIn(e, "s", 0); st->AddOut(e, outs[i], 0, &err);
+    if (i == 1) { BindingEnv* env = new BindingEnv(&st->bindings_); env->AddBinding("deps", "gcc"); e->env_ = env; } }
   return st;
 }
 // names cover every padding case: lengths 1..5
